@@ -1,8 +1,197 @@
-From Coq Require Import List ZArith Bool.
+(* C18 — Stored chain data stays contiguous and consistent through pruning and crashes.
+   Only the property statements; each is closed by [exact] of a lemma of Proofs.v.
+
+   Reading guide.  [bdb] is the block store's database, [sdb] the state store's (association
+   lists of structured keys, Model.v).  An operation is the list of atomic write steps it
+   performs (Set / SetSync of one key, Write / WriteSync of a batch); a crash keeps a prefix of
+   that list ([breplay (firstn n l) d]), after which the store is re-opened from the database.
+   [Consistent d] (Proofs.v) says: the range descriptor is (0,0), or 1 <= base <= height and for
+   every h in [base, height] the meta of h, all parts announced by the meta (each being that
+   part of the block the meta names), the hash-index entry of the block's hash (pointing back to
+   h) and the commit for h (the seen commit when h = height) are present and name the same block;
+   [audit d = (0,0)] is the executable form run by the correspondence check. *)
+From Coq Require Import List ZArith Bool Lia.
 From TM Require Import Generated.Consts C18.Model C18.Proofs.
 Import ListNotations.
 Open Scope Z_scope.
 
-Theorem C18_audit_empty : audit [] = (0, 0).
-Proof. exact audit_empty. Qed.
-Print Assumptions C18_audit_empty.
+(* ------------------------------------------------------------------ block store *)
+
+(* The audit function decides the consistency predicate. *)
+Theorem C18_audit_decides_consistent : forall d, audit d = (0, 0) <-> Consistent d.
+Proof. exact audit_spec. Qed.
+Print Assumptions C18_audit_decides_consistent.
+
+(* For every batch size B and every sequence of SaveBlock / PruneBlocks calls (callers'
+   obligations [bop_ok]: positive height, seen commit for the saved block, block hash not
+   already stored, LastCommit commits the stored tip; PruneBlocks: none), each possibly cut
+   short by a crash after any number of its write steps and followed by a restart: the database
+   is consistent and the in-memory range equals the persisted descriptor. *)
+Theorem C18_audit_invariant :
+  forall B m d, Reach B m d -> audit d = (0, 0) /\ m = load_state d.
+Proof. exact audit_invariant. Qed.
+Print Assumptions C18_audit_invariant.
+
+(* ... and so is whatever is on disk after a crash at any write step of the next operation. *)
+Theorem C18_audit_every_crash_point :
+  forall B m d o code m' l d',
+    Reach B m d -> bop_ok d o -> bop_run B m d o = (code, m', l, d') ->
+    forall n, audit (breplay (firstn n l) d) = (0, 0).
+Proof. exact audit_crash_points. Qed.
+Print Assumptions C18_audit_every_crash_point.
+
+(* A completed PruneBlocks(r): base = r, height unchanged; exactly the keys of the heights
+   [old base, r) are gone ([dead]: meta, the parts announced by the meta, commit, seen commit,
+   hash-index entry of each of those heights) and no other key but the descriptor changed. *)
+Theorem C18_prune_exact :
+  forall B m d r pruned m' l d',
+    Reach B m d -> prune_blocks B m d r = POk pruned m' l d' ->
+    d' = breplay l d /\
+    load_state d' = {| m_base := r; m_height := m_height m |} /\ m_base m <= r <= m_height m /\
+    (forall k, k <> KDesc -> ~ dead d (m_base m) r k -> bget d' k = bget d k) /\
+    (forall k, dead d (m_base m) r k -> bget d' k = None).
+Proof. exact prune_exact. Qed.
+Print Assumptions C18_prune_exact.
+
+(* ---- non-vacuity: a concrete history with batch size 2 (three blocks, then PruneBlocks(3),
+   which flushes an intermediate batch), reachable, consistent at every crash point, and
+   non-trivial (blocks 1 and 2 are gone, block 3 is there). *)
+
+Definition cm (b t : Z) : commit := {| c_blk := b; c_tag := t |}.
+Definition blk (h id : Z) (n : nat) (last : commit) : block :=
+  {| b_height := h; b_id := id; b_total := n; b_vh := 7; b_ph := 8; b_last := last |}.
+Definition ex_ops : list bop :=
+  [OSave (blk 1 11 2 (cm (-1) 0)) (cm 11 1); OSave (blk 2 12 1 (cm 11 2)) (cm 12 3);
+   OSave (blk 3 13 3 (cm 12 4)) (cm 13 5)].
+
+Definition st_of (x : Z * mem * list bstep * bdb) : mem * bdb := (snd (fst (fst x)), snd x).
+Definition ex_run (B : Z) (s : mem * bdb) (o : bop) : mem * bdb := st_of (bop_run B (fst s) (snd s) o).
+Definition ex_s0 : mem * bdb := ({| m_base := 0; m_height := 0 |}, []).
+Definition ex_s3 : mem * bdb := Eval vm_compute in fold_left (ex_run 2) ex_ops ex_s0.
+
+Lemma R_op' : forall B s o, Reach B (fst s) (snd s) -> bop_ok (snd s) o ->
+    Reach B (fst (ex_run B s o)) (snd (ex_run B s o)).
+Proof.
+  intros B [m d] o R Ok. unfold ex_run, st_of. cbn [fst snd].
+  destruct (bop_run B m d o) as [[[c m'] l] d'] eqn:E. cbn [fst snd]. exact (R_op B m d o c m' l d' R Ok E).
+Qed.
+
+Ltac with_state b h :=
+  match goal with |- context [load_state ?d] =>
+    let E := fresh "E" in
+    assert (E : load_state d = {| m_base := b; m_height := h |}) by (vm_compute; reflexivity);
+    rewrite E; cbn [m_base m_height]
+  end.
+
+Example C18_reach_nonvacuous :
+  Reach 2 (fst ex_s3) (snd ex_s3) /\ load_state (snd ex_s3) = {| m_base := 1; m_height := 3 |}.
+Proof.
+  split; [|vm_compute; reflexivity].
+  change ex_s3 with (fold_left (ex_run 2) ex_ops ex_s0). unfold ex_ops. cbn [fold_left].
+  apply R_op'; [apply R_op'; [apply R_op'; [apply R_init|]|]|].
+  - (* first block into the empty store *)
+    unfold bop_ok, save_ok. cbn [snd ex_s0]. change (load_state []) with {| m_base := 0; m_height := 0 |}.
+    cbn [m_base m_height]. repeat split.
+    + cbn. lia.
+    + intros h id t vh ph _ M. discriminate M.
+    + intros id t vh ph P. lia.
+  - unfold bop_ok, save_ok. with_state 1 1.
+    repeat split.
+    + vm_compute. discriminate.
+    + intros h id t vh ph Rg M. assert (h = 1) by lia. subst h.
+      vm_compute in M. inversion M. discriminate.
+    + intros id t vh ph _ M. vm_compute in M. inversion M. reflexivity.
+  - unfold bop_ok, save_ok. with_state 1 2.
+    repeat split.
+    + vm_compute. discriminate.
+    + intros h id t vh ph Rg M. assert (h = 1 \/ h = 2) by lia.
+      destruct H as [-> | ->]; vm_compute in M; inversion M; discriminate.
+    + intros id t vh ph _ M. vm_compute in M. inversion M. reflexivity.
+Qed.
+
+(* PruneBlocks(3) with batch size 2 from that state: 4 write steps (descriptor, batch,
+   descriptor, batch); every crash point is consistent, and the result is exactly block 3. *)
+Example C18_prune_nonvacuous :
+  match prune_blocks 2 (fst ex_s3) (snd ex_s3) 3 with
+  | POk pruned m' l d' =>
+    pruned = 2 /\ length l = 4%nat /\ m' = {| m_base := 3; m_height := 3 |} /\
+    forallb (fun n => audit_ok (breplay (firstn n l) (snd ex_s3))) (seq 0 5) = true /\
+    load_block d' 3 = Some 13 /\ load_meta d' 2 = None /\ load_hash d' 11 = None
+  | PErr _ => False
+  end.
+Proof. vm_compute. repeat split; reflexivity. Qed.
+
+(* The code before the F9 repair (intermediate flush with base = h, [off] = 0) violates the
+   invariant: after the first batch of the same prune the descriptor says base = 2 while
+   block 2 has just been deleted. *)
+Example C18_unrepaired_flush_refuted :
+  match prune_blocks_gen 2 0 (fst ex_s3) (snd ex_s3) 3 with
+  | POk _ _ l _ => audit (breplay (firstn 2 l) (snd ex_s3)) = (2, 1)
+  | PErr _ => False
+  end.
+Proof. vm_compute. reflexivity. Qed.
+
+(* ------------------------------------------------------------------ state store (partial) *)
+
+(* FULL STATEMENT AIMED AT (not proved; monitored by clauses 7-9 of the correspondence run):
+     forall K B (0 < K) chains (tv, L, tp, Lp) and histories of Save / PruneStates(from, to) with
+     every crash prefix of their write steps: for every h in [to, LastBlockHeight + 1]
+       load_validators K db h = Some (tv h) /\ load_consensus_params db h = Some (Some (tp h)).
+   PROVED below: the part that makes PruneStates "keep what is needed" — for every checkpoint
+   interval K > 0 and every last-changed function L (L h <= h, constant on [L h, h]) the two
+   records PruneStates decides to keep from the record of [to] (LastHeightChanged and the last
+   checkpoint) are exactly what the retained heights resolve through: any database that
+   agrees with the original on the records at or above [to] and on the kept ones resolves every
+   retained height as before.  NOT proved: that the loop of PruneStates (batches of 1000,
+   reverse order, re-writing of kept records) only deletes records below [to] outside the keep
+   set, and the crash prefixes of that loop. *)
+Theorem C18_state_prune_keeps_needed_partial :
+  forall K, 0 < K ->
+  forall L : Z -> Z, (forall h, L h <= h) -> (forall h x, L h <= x <= h -> L x = L h) ->
+  forall (d d' : sdb) t hi,
+    (forall h, t <= h <= hi -> exists o, load_vals_info d h = Some (L h, o) /\
+                                         (o <> None -> L h = h \/ h mod K = 0)) ->
+    (forall x, t <= x -> load_vals_info d' x = load_vals_info d x) ->
+    (forall lt, load_vals_info d t = Some (lt, None) ->
+                load_vals_info d' (last_stored_height_for K t lt) =
+                load_vals_info d (last_stored_height_for K t lt)) ->
+    forall h, t <= h <= hi -> load_validators K d' h = load_validators K d h.
+Proof. exact vals_keep_set_sufficient. Qed.
+Print Assumptions C18_state_prune_keeps_needed_partial.
+
+Theorem C18_state_prune_keeps_params_partial :
+  forall L : Z -> Z, (forall h, L h <= h) -> (forall h x, L h <= x <= h -> L x = L h) ->
+  forall (d d' : sdb) t hi,
+    (forall h, t <= h <= hi -> exists o, load_params_info d h = Some (L h, o) /\ (o <> None -> L h = h)) ->
+    (forall x, t <= x -> load_params_info d' x = load_params_info d x) ->
+    (forall lt, load_params_info d t = Some (lt, None) -> load_params_info d' lt = load_params_info d lt) ->
+    forall h, t <= h <= hi -> load_consensus_params d' h = load_consensus_params d h.
+Proof. intros L _. exact (params_keep_set_sufficient L). Qed.
+Print Assumptions C18_state_prune_keeps_params_partial.
+
+(* non-vacuity on the model of the real functions, checkpoint interval 10: a chain from height 7
+   whose validators change at 8 and whose parameters change at 9; after saving up to
+   LastBlockHeight = 13 and PruneStates(7, 12) (batch size 2: three batches) every height of
+   [12, 15] still resolves — through the checkpoint record 10 and the last-changed record 9,
+   both below 12 — after every crash prefix of the prune; and with the checkpoint record
+   dropped from the database height 12 no longer resolves. *)
+Definition ex_states : list sstate :=
+  map (fun '(last, lhvc, nv, p, lhpc) =>
+         {| s_last := last; s_initial := 7; s_vals := 1; s_next_vals := nv; s_lhvc := lhvc;
+            s_params := p; s_lhpc := lhpc |})
+      [(0, 7, 1, 1, 7); (7, 7, 1, 1, 7); (8, 7, 1, 2, 9); (9, 7, 1, 2, 9); (10, 7, 1, 2, 9);
+       (11, 7, 1, 2, 9); (12, 7, 1, 2, 9); (13, 7, 1, 2, 9)].
+Definition ex_sdb : sdb :=
+  Eval vm_compute in fold_left (fun d st => sreplay (fst (state_save 10 st)) d) ex_states [].
+
+Example C18_state_nonvacuous :
+  let '(code, l) := prune_states 10 2 ex_sdb 7 12 in
+  code = 0 /\ length l = 3%nat /\
+  saudit 10 ex_sdb 7 14 = (0, 0) /\
+  forallb (fun n => let '(a, b) := saudit 10 (sreplay (firstn n l) ex_sdb) 12 14 in (a =? 0) && (b =? 0))
+          (seq 0 4) = true /\
+  load_vals_info (sreplay l ex_sdb) 11 = None /\
+  load_vals_info (sreplay l ex_sdb) 10 = Some (7, Some 1) /\
+  load_vals_info (sreplay l ex_sdb) 12 = Some (7, None) /\
+  saudit 10 (del skey_eqb (sreplay l ex_sdb) (SKVals 10)) 12 14 = (12, 1).
+Proof. vm_compute. repeat split; reflexivity. Qed.
